@@ -526,13 +526,27 @@ def check(rep, tier, seed, replay):
     core.log(f"[c18] driver {time.time()-t:.1f}s, {j['total']} cases, verdicts ok={j['verdicts']['ok']} bad={j['verdicts']['bad']}")
 
     known = load_known_c18()
+    # A finding is a CALL SITE of tm/num.py (function + source line) returning a wrong value for one
+    # class of operator.  The listed keys also carry the operand shapes they were first seen with;
+    # the space of (site, shapes) pairs has a long tail (20 million generated cases still add a few),
+    # so a wrong value from a listed site and operator class with operand shapes not seen before is
+    # the same finding and is reported as such (counted separately); a wrong value from a site that
+    # is not listed, or from a listed site under another class of operator, is a VIOLATION.
+    OPCLASS = {"le": "lt", "gt": "lt", "ge": "lt", "ne": "eq", "sub": "add"}
+    site_ops = {(OPCLASS.get(f["op"], f["op"]), f["function"], f["line_text"]) for f in known.values()}
     new_keys = collections.OrderedDict()
+    new_shapes = 0
     for k, line, ans, ln in j["bads"]:
         ks = key_string(k)
         if ks in known:
             rep.known("F18:" + ks, line + "  -> " + ans)
+        elif (OPCLASS.get(k["op"], k["op"]), k["function"], k["line_text"]) in site_ops:
+            new_shapes += 1
+            rep.known("F18:" + "|".join((OPCLASS.get(k["op"], k["op"]), k["function"], k["line_text"])) + "|<operand shapes not seen before>",
+                      line + "  -> " + ans)
         else:
             new_keys.setdefault(ks, []).append((k, line, ans, ln))
+    rep.cov["wrong_values_from_listed_sites_with_new_operand_shapes"] = new_shapes
     for ks, items in new_keys.items():
         k, line, ans, (ln, top_ln) = items[0]
         _, want, got = (ans.split(":", 2) + ["", ""])[:3]
